@@ -566,7 +566,15 @@ func (g *gen) step() bool {
 	}
 	switch {
 	case len(r.temp) > 0 && r.tx:
-		return g.block() // temporary changes executed: the next block comes
+		// temporary changes executed: the next block comes, or the chain is rolled back
+		if g.rng.Chance(30) && len(held) > 0 {
+			k := uint32(g.rng.Range(int(lo), int(r.top)))
+			if held[0] > 0 && k < held[0]-1 {
+				k = held[0] - 1
+			}
+			return t.apply(op{Op: "rb", H: k})
+		}
+		return g.block()
 	case r.pos != r.top:
 		// seeked: seek back to the best height, cut the history here, or let the next block come
 		switch g.rng.Intn(4) {
